@@ -3,7 +3,7 @@
 # Confirms one seeded change produced by an independent agent (in /tmp/seed/out/<ID>/) on the scratch worktree
 # /tmp/seed/<ID>: pinned tests pass with it, its demonstration fails with it and passes without it; then runs the
 # given checks (default: <ID>) against the changed tree (REPO=<worktree>, evidence redirected) and records the
-# outcome in /verif/seeded/<ID>_<variant>/.
+# outcome in /verif/seeded/<ID>_<variant>/.  VERIF_RUN_DIR=<copy of /verif> runs the checks from a frozen copy of the machinery.
 ID=$1; V=$2; shift 2
 CHECKS=${@:-$ID}
 W=/tmp/seed/$ID; O=/tmp/seed/out${ROUND:+$ROUND}/$ID; D=/verif/seeded/${ID}_${ROUND:+r$ROUND}$V   # ROUND=2 selects the second round's deliverables
@@ -28,7 +28,7 @@ echo "== changed tree: demo"
 ( cd $D && timeout 300 bash ./demo_$V.sh $W > /var/tmp/seeded_demo_$ID$V.out 2>&1; echo "demo exit (changed) = $?" >> /var/tmp/seeded_demo_$ID$V.out ); tail -4 /var/tmp/seeded_demo_$ID$V.out
 for c in $CHECKS; do
   echo "== changed tree: ./check $c (quick)"
-  ( cd /verif && REPO=$W VERIF_EVIDENCE_DIR=/var/tmp/seeded_ev timeout 3000 ./check $c > /var/tmp/seeded_check_$ID$V.out 2>&1; echo "check $c exit = $?" >> /var/tmp/seeded_check_$ID$V.out ); grep -v "^KNOWN-FINDING" /var/tmp/seeded_check_$ID$V.out | cut -c1-600 | tail -7
+  ( cd ${VERIF_RUN_DIR:-/verif} && REPO=$W VERIF_EVIDENCE_DIR=/var/tmp/seeded_ev timeout 3000 ./check $c > /var/tmp/seeded_check_$ID$V.out 2>&1; echo "check $c exit = $?" >> /var/tmp/seeded_check_$ID$V.out ); grep -v "^KNOWN-FINDING" /var/tmp/seeded_check_$ID$V.out | cut -c1-600 | tail -7
 done
 git -C $W checkout -q -- .
 } 2>&1 | tee $D/result.txt
